@@ -43,14 +43,23 @@ def forked(fn):
     return json.loads(b"".join(chunks).decode())
 
 
-def answer(cls, word):
-    ent = cls(impl.CircularRecord(impl.Seq(word), id="q"))
+def mkrec(word, topo):
+    if topo == "L":
+        return impl.SeqRecord(impl.Seq(word), id="q", annotations={"topology": "linear"})
+    return impl.CircularRecord(impl.Seq(word), id="q")
+
+
+def answer(cls, word, topo="C"):
+    ent = cls(mkrec(word, topo))
     try:
         if not ent.is_valid():
             return ["invalid"]
-        return ["valid", str(ent.overhang_start()), str(ent.overhang_end()), str(ent.target_sequence().seq)]
     except Exception as e:  # noqa
         return ["exc", type(e).__name__]
+    try:
+        return ["valid", str(ent.overhang_start()), str(ent.overhang_end()), str(ent.target_sequence().seq)]
+    except Exception as e:  # noqa   (a linear SeqRecord cannot be rotated: the accessors are not part of the verdict)
+        return ["valid", "accessor-exc:" + type(e).__name__]
 
 
 def resolve(classes, ref):
@@ -65,11 +74,13 @@ def run_history(classes, hist):
     """hist = [(ref, word)]; returns the answers of every call"""
     made = {}
     out = []
-    for ref, word in hist:
+    for h in hist:
+        ref, word = h[0], h[1]
+        topo = h[2] if len(h) > 2 else "C"
         key = json.dumps(ref)
         if key not in made:
             made[key] = resolve(classes, ref)
-        out.append(answer(made[key], word))
+        out.append(answer(made[key], word, topo))
     return out
 
 
@@ -90,28 +101,29 @@ def setup(rng):
     return _state
 
 
-def fresh_answer(S, ref, word):
-    key = json.dumps([ref, word])
+def fresh_answer(S, ref, word, topo="C"):
+    key = json.dumps([ref, word, topo])
     if key not in S["fresh"]:
-        S["fresh"][key] = forked(lambda: run_history(S["classes"], [(ref, word)]))[0]
+        S["fresh"][key] = forked(lambda: run_history(S["classes"], [(ref, word, topo)]))[0]
     return S["fresh"][key]
 
 
 def check_case(ctx, case):
     S = setup(ctx.rng)
     classes = S["classes"]
-    hist = [(h[0], h[1]) for h in case["history"]]
+    hist = [(h[0], h[1], h[2] if len(h) > 2 else "C") for h in case["history"]]
     got = forked(lambda: run_history(classes, hist))
     if got and got[0] == "child-exception":
         ctx.fail("history raised {}: {}".format(got[1], got[2]), case)
         return
-    for (ref, word), g in zip(hist, got):
-        exp = fresh_answer(S, ref, word)
+    for i, ((ref, word, topo), g) in enumerate(zip(hist, got)):
+        exp = fresh_answer(S, ref, word, topo)
         if g != exp:
             def nm(x):
                 return ("new subclass of " + classes[x[1]].__name__) if isinstance(x, list) else classes[x].__name__
-            ctx.fail("after validating with {}, {} answers {} on a record for which a fresh interpreter answers {}".format(
-                [nm(h[0]) for h in hist[:hist.index((ref, word))]] or "nothing", nm(ref), g[:2], exp[:2]), case)
+            ctx.fail("after validating with {}, {} answers {} on a {} record for which a fresh interpreter answers {}".format(
+                [(nm(h[0]), h[2]) for h in hist[:i]] or "nothing", nm(ref), g[:2],
+                "linear" if topo == "L" else "circular", exp[:2]), case)
             break
     refs = [h[0] for h in hist]
     ctx.note("history-len={}".format(min(len(hist), 6)))
@@ -125,7 +137,7 @@ def check_case(ctx, case):
             table.append((key, "^".join(impl.cls_fields(cls))))
         idx.append([t[0] for t in table].index(key))
     line_classes = "|".join(t[1] for t in table)
-    line_q = ";".join("{}:{}".format(i, w) for i, (_, w) in zip(idx, hist))
+    line_q = ";".join("{}:{}:{}".format(i, w, t) for i, (_, w, t) in zip(idx, hist))
     ctx.op(("RAW", "\t".join(["HIST", line_classes, line_q])), case,
            reply="".join("1" if g[0] == "valid" else "0" for g in got))
 
@@ -161,3 +173,11 @@ def run(ctx):
             a, b = rng.choice(related)
             hist[-2:] = [[a, words[a]], [b, words[rng.choice([a, b])]]]
         check_case(ctx, {"history": hist})
+    # the same letters as a circular plasmid and as a linear fragment, in both orders, same and related classes
+    for _ in range(ctx.budget(120, 2500)):
+        a = rng.randrange(n)
+        b = rng.choice([a, a, rng.choice(related)[1] if related else a])
+        inst = words[a]
+        w = gen.rot(inst, rng.randrange(len(inst)))      # origin often inside the structure
+        t1, t2 = rng.choice([("C", "L"), ("L", "C")])
+        check_case(ctx, {"history": [[a, w, t1], [b, w, t2]]})
